@@ -204,6 +204,17 @@ PROPS["C07"] = dict(
     assumptions=COMMON_ASSUME,
 )
 
+PROPS["C19"] = dict(
+    title="service resumes after an upstream outage",
+    level="fault_enumeration",
+    technique="end-to-end fault injection: kill/stop/restart supervisor + probe streams; bounded-recovery and clean-failure checker on one clock; continuous healthy side traffic",
+    text="For every upstream kind (origin via direct, upstream proxy via http, via socks5, via the shared QUIC connection, a load balancer over two) x fault (SIGKILL+restart, SIGTERM+restart, SIGSTOP..SIGCONT, SIGSTOP+SIGKILL+restart) x phase (idle, tunnel open across the outage, request caught during connect) x outage length, each with its own upstream process behind one proxy: once the harness has verified that the upstream accepts connections again, probes routed to it must succeed within 3 attempts (5 for QUIC) and 15 s (50 s for QUIC, whose dead-peer detection is its 30 s idle timeout); a tunnel that was open across a hard outage must end on the client side and be recorded as an error; a request caught by the outage must complete or fail; a probe stream on an unrelated upstream (10 Hz) must never fail or exceed 2 s.",
+    note="trusted: liveness restated as the bounded (attempts, seconds) above; silent drops (SIGSTOP) are judged on recovery only; 'every phase' is three sampled phases",
+    design_ref="DESIGN.md 3 C19",
+    steps=[e2e("c19", timeout=(600, 3000))],
+    assumptions=COMMON_ASSUME,
+)
+
 NOT_YET = {}
 
 
